@@ -180,7 +180,11 @@ def operations(obj):
         attr = getattr(cls, name, None)
         if isinstance(attr, property) and attr.fset is not None:
             if name in ("centroid", "center"):
-                ops[f"{name}=(1,-2,3)"] = lambda o, n=name: setattr(o, n, _centre_target(o))
+                def move(o, n=name):
+                    t = np.array(_centre_target(o), dtype=np.float64)
+                    setattr(o, n, t)
+                    t += 1000.0           # the caller goes on using its array: the shape must not follow it
+                ops[f"{name}=(1,-2,3)"] = move
                 continue
             for fac in (0.5, 2.0, 1.00002):
                 def op(o, n=name, fac=fac):
